@@ -316,6 +316,60 @@ impl PersistWal {
         Ok(())
     }
 
+    /// True if the WAL file holds anything other than complete, valid, newline-terminated
+    /// entries: a torn tail from a crash in the middle of an append, or a corrupt line.
+    /// Appending to such a file would glue the next entry onto the damaged line, and that
+    /// entry would then be skipped as corrupt at the next recovery.
+    pub fn is_damaged(&self) -> StorageResult<bool> {
+        if !self.current_file.exists() {
+            return Ok(false);
+        }
+        let bytes = fs::read(&self.current_file)?;
+        if bytes.is_empty() {
+            return Ok(false);
+        }
+        if bytes.last() != Some(&b'\n') {
+            return Ok(true);
+        }
+        let lines = String::from_utf8_lossy(&bytes)
+            .lines()
+            .filter(|l| !l.trim().is_empty())
+            .count();
+        Ok(lines != self.read_all()?.len())
+    }
+
+    /// Replace the WAL content with exactly `entries` (atomic write-to-new+rename).
+    pub fn rewrite(&mut self, entries: &[WalEntry]) -> StorageResult<()> {
+        self.writer = None;
+        if entries.is_empty() {
+            if self.current_file.exists() {
+                fs::remove_file(&self.current_file)?;
+            }
+            self.entries_written = 0;
+            return Ok(());
+        }
+        let new_file = self.wal_dir.join("current.wal.new");
+        {
+            let file = OpenOptions::new()
+                .create(true)
+                .write(true)
+                .truncate(true)
+                .open(&new_file)?;
+            let mut writer = BufWriter::new(file);
+            for entry in entries {
+                let json = serde_json::to_string(entry)
+                    .map_err(|e| StorageError::Other(format!("WAL serialization failed: {e}")))?;
+                let checksum = Self::crc32_hex(json.as_bytes());
+                writeln!(writer, "{checksum}:{json}")?;
+            }
+            writer.flush()?;
+            writer.get_ref().sync_all()?;
+        }
+        fs::rename(&new_file, &self.current_file)?;
+        self.entries_written = entries.len();
+        Ok(())
+    }
+
     /// Remove stale .archived WAL files left over from previous runs.
     /// Called during startup - if we reached this point, recovery succeeded
     /// and archived files are no longer needed.
